@@ -370,10 +370,10 @@ def fixed_histories():
     # writer killed at every offset class, companion target and home target
     for target in ("companion", "home"):
         pre = [] if target == "companion" else [{"t": "W", "d": 1, "b": False}]
-        for point in range(4):
+        for point in range(6):
             hs.append(("crash-%s-%d" % (target, point), pre + [{"t": "K", "point": point}, A, N, A]))
     # final cache files cut at every offset class
-    for cls in range(4):
+    for cls in range(6):
         hs.append(("cut-companion-%d" % cls, [A, N, {"t": "C", "loc": 1, "stem": "arch", "c": 0, "cls": cls}, A, N, A]))
         hs.append(("cut-home-%d" % cls, [{"t": "W", "d": 1, "b": False}, A, N,
                                          {"t": "C", "loc": HOME_LOC, "stem": "arch", "c": 0, "cls": cls}, A, N, A]))
@@ -410,12 +410,12 @@ def random_history(rng, length):
                 cur[d] = c
             hops.append({"t": "E", "d": d, "c": c})
         elif r < 0.66:
-            hops.append({"t": "K", "point": rng.randrange(4)})
+            hops.append({"t": "K", "point": rng.randrange(6)})
         elif r < 0.78:
             which = rng.choice(["arch", "arch", "isa"])
             loc = rng.choice([0, 1, 1, HOME_LOC] if which == "arch" else [3, 3, HOME_LOC])
             c = "isa" if which == "isa" else (cur.get(0 if 0 in cur else 1) if rng.random() < 0.75 else rng.randrange(NVAR))
-            hops.append({"t": "C", "loc": loc, "stem": which, "c": c, "cls": rng.randrange(4)})
+            hops.append({"t": "C", "loc": loc, "stem": which, "c": c, "cls": rng.randrange(6)})
         elif r < 0.81:
             which = rng.choice(["arch", "isa"])
             loc = rng.choice([0, 1, HOME_LOC] if which == "arch" else [3, HOME_LOC])
@@ -475,6 +475,16 @@ def concretise(shared, world, hops, rng):
 
 
 # --------------------------------------------------------------------------- executing a history on the real code
+def frame_end(data):
+    """end offset of the first pickle frame (protocol >= 4: PROTO, FRAME <8-byte length>); pickle raises EOFError
+    (not UnpicklingError) for a file cut exactly there -- which is where a killed writer leaves it, because
+    pickle.dump issues one write() per frame"""
+    if len(data) > 11 and data[0] == 0x80 and data[2] == 0x95:
+        n = int.from_bytes(data[3:11], "little")
+        return min(len(data) - 1, 11 + n)
+    return len(data) // 3
+
+
 def cut_bytes(data, cls):
     if cls == 0:
         return b""
@@ -482,6 +492,10 @@ def cut_bytes(data, cls):
         return data[:3]
     if cls == 2:
         return data[:len(data) // 2]
+    if cls == 4:
+        return data[:2]                  # protocol header only
+    if cls == 5:
+        return data[:frame_end(data)]    # exactly at a frame boundary
     return data[:-1]
 
 
@@ -969,7 +983,7 @@ def run(ctx):
     ctx.cov["histories"] = len(plan)
     ctx.cov["traces_validated_against_impl"] = len(plan)
     ctx.cov["rule"] = ("operation histories over {analyse (full+ISA+lazy load), lazy load, new process, edit / "
-                       "shadow / remove model file, writer killed at 4 offset classes, final cache file cut at 4 "
+                       "shadow / remove model file, writer killed at 6 offset classes (0, 3 bytes, middle, last byte missing, 2-byte header, frame boundary), final cache file cut at 6 "
                        "offset classes, cache file removed, cache of another format version, install-time cache, "
                        "read-only data / cache directories, N simultaneous cold starts}; the fixed shapes named "
                        "by the property on %s, random words on zen1/tx2/a72; evaluations = loads whose outcome "
